@@ -21,6 +21,7 @@ import IxpeVerif.Model.Columns
 import IxpeVerif.Gen.Specs
 import IxpeVerif.Gen.Masks
 import IxpeVerif.Gen.AnaGen
+import IxpeVerif.Gen.ImgGen
 /-! Dispatcher of the hand-written models for the line-protocol driver.  Integers travel in decimal. -/
 namespace Driver
 
@@ -233,6 +234,20 @@ def step (ws : List String) : String :=
     let st := Gen.Ana.init (fun x => x != x) (evs.map (·.q)) (evs.map (·.u)) (evs.map (·.e)) (look (·.mu)) (look (·.aeff)) 1000.0
       (if uw == "1" then some (evs.map (·.w)) else none) (ac == "1")
     showFs (Gen.Ana.table_row st (fw emin) (fw emax) true 0.0)
+  -- imgrvs ncols rand cdelt1 cdelt2 <ndata> data… <3n> (u u1 u2)…  -> the regenerated cdf, then per event: col row Δra Δdec (Gen/ImgGen.lean)
+  | "imgrvs" :: nc :: rd :: c1 :: c2 :: rest =>
+    let (dat, rest2) := takeN rest
+    let (us, _) := takeN rest2
+    let data := (ints dat).map fbits
+    let cdf := Gen.Img.build_cdf data
+    let ncols := nc.toNat!
+    let rec go : List Float → List Float
+      | u :: u1 :: u2 :: more =>
+        let p := Gen.Img.rvs_coordinates cdf (data.length / ncols) ncols (fun col row => (col.toFloat, row.toFloat)) (fw c1) (fw c2) false u u1 u2
+        let d := Gen.Img.rvs_coordinates cdf (data.length / ncols) ncols (fun _ _ => (0.0, 0.0)) (fw c1) (fw c2) (rd == "1") u u1 u2
+        p.1 :: p.2 :: d.1 :: d.2 :: go more
+      | _ => []
+    showFs (cdf ++ go ((ints us).map fbits))
   -- harm <3n> (F m delta)…   -> F m delta of the combination
   | "harm" :: rest =>
     let (c, _) := takeN rest
